@@ -12,7 +12,7 @@ use, an unknown product, a failed listing — the state is the one before the co
 destruction. -/
 theorem C14_refuses (h : (removeWith s uses name ver recursive check force dn).1 ≠ .ok) :
     (removeWith s uses name ver recursive check force dn).2.1 = s := by
-  rcases removeWith_failed_or_ok s uses name ver recursive check force dn with ⟨e, he⟩ | ⟨s', R, hok⟩
+  rcases removeWith_failed_or_ok s uses name ver recursive check force dn with ⟨e, R, he⟩ | ⟨s', R, hok⟩
   · rw [he]
   · rw [hok] at h; exact absurd rfl h
 
@@ -109,39 +109,29 @@ theorem C14_never_still_needed_listing (s' : State) (R : List Prod)
     have := C14_never_still_needed s name ver recursive dn sb s' R h p hp u hu'
     rw [← h1, ← h2]; exact this
 
-/-- `--noCheck`: the command never refuses. -/
+/-- `--noCheck`: the command never refuses on the grounds that a product is in use. -/
 theorem C14_noCheck : (removeWith s uses name ver recursive false force dn).1 ≠ .failed .refused := by
   intro h
-  obtain ⟨sb, hc, hsb⟩ := removeWith_refused h
-  rw [hsb rfl] at hc
-  exact collect_not_refused _ none force dn _ (Or.inl rfl) _ _ _ _ _ hc
+  rcases removeWith_failed h with ⟨hc, _⟩ | ⟨sb, hsb, hc⟩ | ⟨he, _⟩ | ⟨he, _⟩
+  · exact absurd hc (by simp)
+  · rw [hsb rfl] at hc
+    exact collect_not_refused _ none force dn _ (Or.inl rfl) _ _ _ _ _ hc
+  · cases he
+  · cases he
 
-/-- `--force`: the command never refuses. -/
-theorem C14_force : (removeWith s uses name ver recursive check true dn).1 ≠ .failed .refused := by
-  intro h
-  obtain ⟨sb, hc, _⟩ := removeWith_refused h
-  exact collect_not_refused _ sb true dn _ (Or.inr rfl) _ _ _ _ _ hc
-
-/-- **`remove` ends** (tree with the D33 repair): on a stack whose tables have no unsetup lines, dependency
-cycles included, the command never dies in the recursion (`RecursionError`) and the in-use index is always
-built — the only ways not to remove are the refusal and an unknown product. -/
-theorem C14_terminates (hns : NoUnsetup s.db) (e : Err)
-    (h : (remove s name ver recursive check force dn).1 = .failed e) : e = .refused ∨ e = .notFound := by
-  unfold remove at h
-  obtain ⟨sb, hsb⟩ := usesInfo_total s.db hns
-  rw [hsb] at h
-  rcases removeWith_failed h with ⟨_, ⟨hu, _⟩ | ⟨hu, _⟩⟩ | ⟨sb', hc⟩
-  · cases hu
-  · cases hu
-  · have := (collect_fuel s.db hns sb' force dn (name, ver) s.removeFuel name (some ver) recursive []
-      (removeFuel_enough s)).1
-    cases e with
-    | refused => exact Or.inl rfl
-    | notFound => exact Or.inr rfl
-    | cycle =>
-      exfalso
-      -- `collect` never yields `cycle`
-      have hcyc : ∀ f n v r sn, collect s.db sb' force dn (name, ver) f n v r sn ≠ .error .cycle := by
+/-- `--force`: the command never refuses — neither because a product is in use nor because one is set up. -/
+theorem C14_force (e : Err) (h : (removeWith s uses name ver recursive check true dn).1 = .failed e) :
+    e ≠ .refused ∧ e ≠ .isSetup := by
+  rcases removeWith_failed h with ⟨_, ⟨_, rfl⟩ | ⟨_, rfl⟩⟩ | ⟨sb, _, hc⟩ | ⟨_, hf⟩ | ⟨rfl, _⟩
+  rotate_right
+  · exact ⟨by simp, by simp⟩
+  · exact ⟨by simp, by simp⟩
+  · exact ⟨by simp, by simp⟩
+  · refine ⟨fun he => ?_, fun he => ?_⟩
+    · subst he; exact collect_not_refused _ sb true dn _ (Or.inr rfl) _ _ _ _ _ hc
+    · subst he
+      -- `collect` never yields `isSetup`
+      have hk : ∀ f n v r sn, collect s.db sb true dn (name, ver) f n v r sn ≠ .error .isSetup := by
         intro f
         induction f with
         | zero => intro n v r sn; simp [collect]
@@ -154,10 +144,11 @@ theorem C14_terminates (hns : NoUnsetup s.db) (e : Err)
             · simp
             · simp only
               split
-              · simp
-              · have loop : ∀ qs acc sn', collectLoop sb' force (name, ver) r
-                    (fun q sn => collect s.db sb' force dn (name, ver) k q.name q.ver (q.name != n) sn) qs acc sn'
-                    ≠ .error .cycle := by
+              · rename_i e' he'
+                rcases directDeps_error he' with rfl | rfl <;> simp
+              · have loop : ∀ qs acc sn', collectLoop sb true (name, ver) r
+                    (fun q sn => collect s.db sb true dn (name, ver) k q.name q.ver (q.name != n) sn) qs acc sn'
+                    ≠ .error .isSetup := by
                   intro qs
                   induction qs with
                   | nil => intro acc sn'; simp [collectLoop]
@@ -167,15 +158,52 @@ theorem C14_terminates (hns : NoUnsetup s.db) (e : Err)
                     split
                     · simp
                     · split
-                      · cases hq : collect s.db sb' force dn (name, ver) k q.name q.ver (q.name != n) sn' with
+                      · cases hq : collect s.db sb true dn (name, ver) k q.name q.ver (q.name != n) sn' with
                         | error e' =>
                           simp only
                           intro hh; injection hh with hh; subst hh; exact ih _ _ _ _ hq
                         | ok r' => obtain ⟨sub, sn2⟩ := r'; exact ihq _ _
                       · exact ihq _ _
                 exact loop _ _ _
-      exact hcyc _ _ _ _ _ hc
-    | outOfFuel => exact absurd hc this
+      exact hk _ _ _ _ _ hc
+  · exact absurd hf (by simp)
+
+/-- **`remove` ends** (tree with the D33 repair): on a stack whose tables are plain (no unsetup lines, every table
+file present), dependency cycles included, the command never dies in the recursion (`RecursionError`), the in-use
+index is always built and no table fails to load — the only ways not to remove are the refusals (a product is
+in use; a product is set up; the database may not be written) and an unknown product. -/
+theorem C14_terminates (hns : NoUnsetup s.db) (e : Err)
+    (h : (remove s name ver recursive check force dn).1 = .failed e) :
+    e = .refused ∨ e = .notFound ∨ e = .isSetup ∨ e = .noPermission := by
+  unfold remove at h
+  obtain ⟨sb, hsb⟩ := usesInfo_total s.db hns
+  rw [hsb] at h
+  rcases removeWith_failed h with ⟨_, ⟨hu, _⟩ | ⟨hu, _⟩⟩ | ⟨sb', _, hc⟩ | ⟨he, _⟩ | ⟨he, _⟩
+  rotate_right
+  · exact Or.inr (Or.inr (Or.inr he))
+  · cases hu
+  · cases hu
+  · have hfuel := (collect_fuel s.db hns sb' force dn (name, ver) s.removeFuel name (some ver) recursive []
+      (removeFuel_enough s)).1
+    rcases collect_error_kinds s.db hns sb' force dn (name, ver) _ _ _ _ _ _ hc with rfl | rfl | rfl
+    · exact Or.inl rfl
+    · exact Or.inr (Or.inl rfl)
+    · exact absurd hc hfuel
+  · exact Or.inr (Or.inr (Or.inl he))
+
+/-- **A set-up product is never removed behind the user's back, and never half-way** (tree with the D37 repair):
+unless forced, a successful `remove` removed no product that is set up; the refusal (`C14_refuses`) comes before
+anything is destroyed. -/
+theorem C14_setup_refused (s' : State) (R : List Prod)
+    (h : removeWith s uses name ver recursive check false dn = (.ok, s', R)) :
+    ∀ p ∈ R, s.isSetup p = false := by
+  have hc := removeWith_course s uses name ver recursive check false dn
+  rw [h] at hc
+  cases hc with
+  | done sb l sn _ _ _ hno =>
+    rcases hno with hf | hno
+    · exact absurd hf (by simp)
+    · exact hno
 
 /-! Non-vacuity: `app 1 → lib 1 ← other 1`.  Removing `app` recursively is refused (lib is in use by `other`),
 succeeds with `--noCheck` taking `lib` along, and a plain removal of `app` leaves everything else alone.
@@ -186,7 +214,8 @@ def l : Str := [108]
 def o : Str := [111]
 def v1 : Str := [49]
 def ex : State :=
-  { decls := [⟨a, v1, [⟨false, false, l, none, false⟩]⟩, ⟨l, v1, []⟩, ⟨o, v1, [⟨false, false, l, none, false⟩]⟩]
+  { decls := [⟨a, v1, [⟨false, false, l, none, false⟩], false⟩, ⟨l, v1, [], false⟩,
+              ⟨o, v1, [⟨false, false, l, none, false⟩], false⟩]
     tags := [(a, currentTag, v1), (l, currentTag, v1), (o, currentTag, v1)]
     dirs := [(a, v1), (l, v1), (o, v1)] }
 
@@ -198,11 +227,11 @@ example : (remove ex a v1 false true false none).2.1.decls.map (·.name) = [l, o
 def x : Str := [120]
 def y : Str := [121]
 def cyc : State :=
-  { decls := [⟨x, v1, [⟨false, false, y, none, false⟩]⟩, ⟨y, v1, [⟨false, false, x, none, false⟩]⟩]
+  { decls := [⟨x, v1, [⟨false, false, y, none, false⟩], false⟩, ⟨y, v1, [⟨false, false, x, none, false⟩], false⟩]
     tags := [(x, currentTag, v1), (y, currentTag, v1)]
     dirs := [(x, v1), (y, v1)] }
 example : (remove cyc x v1 true false false none).2.2 = [⟨x, some v1, true⟩, ⟨y, some v1, true⟩] := by decide
-example : (remove cyc x v1 true false false none).2.1 = ⟨[], [], []⟩ := by decide
+example : (remove cyc x v1 true false false none).2.1 = ⟨[], [], [], [], true⟩ := by decide
 example : (remove cyc x v1 true true false none).1 = .failed .refused := by decide
 end Example
 
